@@ -486,7 +486,7 @@ func fp64(b []byte) uint64 {
 // ------------------------------------------------------------------ part A: round trips
 
 func partA(r *vf.Run, rng *vf.RNG) {
-	n := vf.N(10000, 1000000)
+	n := vf.N(10000, 600000)
 	const chunk = 500
 	nch := (n + chunk - 1) / chunk
 	var mu sync.Mutex
@@ -1240,7 +1240,7 @@ func classifyCrash(stderr string) string {
 
 func partB(r *vf.Run, scratch string) {
 	seed := vf.Seed()
-	total := uint64(vf.N(100000, 10000000))
+	total := uint64(vf.N(100000, 6000000))
 	workers := runtime.NumCPU() - 2
 	if workers < 2 {
 		workers = 2
